@@ -129,3 +129,4 @@ reg('C18', 'streams', 'rule_lockscope')
 reg('C15', 'jsonmap', 'rule_json_sibling')
 reg('C14', 'eqhash', 'rule_eq_allpaths')
 reg('C20', 'eqhash', 'rule_eq_allpaths')
+reg('C19', 'unsafety', 'rule_range_validated', ('dev', 'release'))
